@@ -114,7 +114,8 @@ pub fn model(tier: Tier, world: &str) -> Hist {
     alpha.max_clock_devs = 1;
     alpha.clock_dts = vec![1, 31_536_000];
     alpha.rich_amounts = true;
-    alpha.flash_wrap = true;
+    // (quick depth only: at the thorough depth the doubled alphabet does not fit the time budget)
+    alpha.flash_wrap = tier == Tier::Quick;
     alpha.prune = true;
     alpha.extra_amounts = vec![2, 149_999_999, 150_000_000, 150_000_001];
     Hist { w, roots, alpha, oracles: vec![Box::new(CapsOracle), Box::new(UpToLimitProbe)] }
